@@ -711,35 +711,136 @@ def s_deblend(E):
                                            mode=E.v['mode'], progress_bar=False))
 
 
-@scenario('SegmentationImage', data=['ndarray'], cond=['clean'], mask=None, error=None)
+def public_reads(obj, skip=()):
+    """The read alphabet of an object, derived from the object itself: every public attribute that
+    is not callable - properties and lazyproperties of its class (whole MRO) and public instance
+    attributes."""
+    names = []
+    for n in dir(type(obj)):
+        if n.startswith('_') or n in skip:
+            continue
+        try:
+            a = getattr(type(obj), n)
+        except Exception:
+            continue
+        if isinstance(a, property) or (hasattr(a, '__get__') and not callable(a)):
+            names.append(n)
+    for n in getattr(obj, '__dict__', {}):
+        if not n.startswith('_') and n not in names and n not in skip and not callable(obj.__dict__[n]):
+            names.append(n)
+    return sorted(names)
+
+
+SEG_LAYOUTS = ['detected', 'nested', 'interleaved', 'diagonal', 'deblended', 'ring', 'touching_border']
+SEG_DTYPES = ['int64', 'int32', 'int16', 'uint8', 'uint16', 'uint32']
+
+
+def label_map(E, layout, shape=(41, 43)):
+    """Label maps whose bounding boxes contain pixels of OTHER labels (nested, interleaved,
+    diagonal neighbours, deblended blends, a ring around another source), non-consecutive labels."""
+    ny, nx = shape
+    lab = np.zeros(shape, int)
+    if layout == 'detected':
+        return np.array(_segm(E, E.plain_image('clean')).data)
+    if layout == 'nested':
+        lab[5:25, 6:30] = 3
+        lab[10:14, 12:18] = 7            # a small source inside the bounding box (a hole) of label 3
+        lab[10:14, 12:18][1:3, 2:4] = 9  # and one inside that
+        lab[30:36, 5:12] = 12
+    elif layout == 'ring':
+        yy, xx = np.mgrid[0:ny, 0:nx]
+        r = np.hypot(yy - 20, xx - 21)
+        lab[(r > 8) & (r < 12)] = 4
+        lab[r < 4] = 2
+        lab[2:5, 2:5] = 40
+    elif layout == 'interleaved':
+        for i, x0 in enumerate(range(4, 36, 4)):
+            lab[6 + 2 * (i % 2):30, x0:x0 + 2] = 5 if i % 2 == 0 else 6   # two combs, teeth alternating
+        lab[4:6, 4:36] = 5
+        lab[30:32, 4:36] = 6
+    elif layout == 'diagonal':
+        for k in range(6):
+            lab[5 + 5 * k:10 + 5 * k, 5 + 5 * k:10 + 5 * k] = 2 + 3 * k
+        lab[5:9, 28:34] = 30
+        lab[8:12, 24:29] = 31            # bounding boxes overlap corner to corner
+    elif layout == 'touching_border':
+        lab[0:6, 0:9] = 1
+        lab[3:12, 6:14] = 2
+        lab[ny - 4:, nx - 7:] = 8
+        lab[ny - 8:ny - 2, nx - 12:nx - 5] = 9
+    else:  # deblended blend
+        from photutils.segmentation import deblend_sources, detect_sources
+        E.stars = [(15.0, 14.0, 100.0), (19.0, 17.0, 80.0), (23.0, 14.5, 90.0), (33.0, 30.0, 60.0), (30.0, 33.5, 70.0)]
+        img = E.plain_image('clean')
+        with warnings.catch_warnings():
+            warnings.simplefilter('ignore')
+            sg = detect_sources(img, np.median(img) + 4.0, 5)
+            sg = deblend_sources(img, sg, 5, nlevels=16, contrast=0.0001, progress_bar=False)
+        return np.array(sg.data)
+    return lab
+
+
+@scenario('SegmentationImage', data=None, cond=None, mask=None, error=None, layout=SEG_LAYOUTS, dtype=SEG_DTYPES,
+          rep=['array', 'view', 'readonly', 'fortran'])
 def s_segmimg(E):
+    """SegmentationImage and its Segment objects: the read alphabet is derived from the objects
+    (every public non-callable attribute of the image and of EACH segment) plus the documented
+    methods; the label array supplied by the caller (also as a view of a larger array) and the
+    image itself are watched."""
     from photutils.segmentation import SegmentationImage
-    plain = E.plain_image('clean')
-    base = _segm(E, plain)
-    arr = E.reg('segm_array', np.array(base.data))
+    lab = label_map(E, E.v['layout']).astype(E.v['dtype'])
+    E.shape = lab.shape
+    rep = E.v['rep']
+    if rep == 'view':
+        arr = E.wrap('segm_array', lab, 'view')
+    elif rep == 'fortran':
+        arr = E.reg('segm_array', np.asfortranarray(lab))
+    else:
+        arr = E.wrap('segm_array', lab, 'readonly' if rep == 'readonly' else 'ndarray')
     segm = E.call('init', lambda: SegmentationImage(arr))
     if segm is None:
         return
     E.reg('segm', segm)
-    names = ['labels', 'nlabels', 'max_label', 'slices', 'bbox', 'areas', 'background_area', 'is_consecutive',
-             'missing_labels', 'segments', 'data_ma', 'cmap', 'polygons']
+    names = public_reads(segm)
     E.rng.shuffle(names)
-    E.props(segm, [n for n in names if hasattr(type(segm), n)])
+    E.props(segm, names)
+    plain = E.nrng.normal(5.0, 1.0, lab.shape)
+    other = E.reg('data_img', plain)
+    segs = E.call('segments', lambda: segm.segments) or []
+    order = list(range(len(segs)))
+    E.rng.shuffle(order)
+    for i in order[:8]:
+        sg = segs[i]
+        rd = public_reads(sg)
+        E.rng.shuffle(rd)
+        E.props(sg, rd, prefix='Segment.')
+        E.call('Segment.__array__', lambda sg=sg: np.asarray(sg))
+        E.call('Segment.__array__dtype', lambda sg=sg: np.asarray(sg, dtype=float))
+        E.call('Segment.make_cutout', lambda sg=sg: sg.make_cutout(other, masked_array=False))
+        E.call('Segment.make_cutout_ma', lambda sg=sg: sg.make_cutout(other, masked_array=True))
+        E.call('Segment.repr', lambda sg=sg: (repr(sg), str(sg)))
     E.call('copy', lambda: segm.copy())
-    E.call('get_index', lambda: segm.get_index(int(segm.labels[0])))
-    E.call('get_area', lambda: segm.get_area(int(segm.labels[0])))
+    E.call('array', lambda: np.asarray(segm))
+    E.call('repr', lambda: (repr(segm), str(segm)))
+    l0 = int(segm.labels[0])
+    E.call('get_index', lambda: segm.get_index(l0))
+    E.call('get_area', lambda: segm.get_area(l0))
     labs = E.reg('labels_arg', np.array(segm.labels[:2]))
     E.call('get_areas', lambda: segm.get_areas(labs))
     E.call('get_indices', lambda: segm.get_indices(labs))
     E.call('check_labels', lambda: segm.check_labels(labs))
+    E.call('check_label', lambda: segm.check_label(l0))
     E.call('make_cmap', lambda: segm.make_cmap(seed=1))
     E.call('to_regions', lambda: segm.to_regions())
+    E.call('to_patches', lambda: segm.to_patches(origin=(2, 3)))
     fp = E.reg('footprint', np.ones((3, 3), bool))
     E.call('make_source_mask', lambda: segm.make_source_mask(footprint=fp))
+    E.call('make_source_mask_size', lambda: segm.make_source_mask(size=3))
+    E.call('getitem_slices', lambda: [segm.data[s_] for s_ in segm.slices])
     # in-place mutators of their own object are exempt, their ARGUMENTS are not: run them on
     # a private copy and watch the arguments
-    msk = np.zeros(arr.shape, bool)
-    msk[:, : arr.shape[1] // 2] = True
+    msk = np.zeros(lab.shape, bool)
+    msk[:, : lab.shape[1] // 2] = True
     msk = E.reg('mask_arg', msk)
     E.call('remove_masked_labels', lambda: segm.copy().remove_masked_labels(msk))
     E.call('remove_masked_labels_partial', lambda: segm.copy().remove_masked_labels(msk, partial_overlap=False))
@@ -749,8 +850,9 @@ def s_segmimg(E):
     E.call('reassign_labels', lambda: segm.copy().reassign_labels(labs, newl))
     E.call('reassign_labels_scalar', lambda: segm.copy().reassign_labels(labs, 70, relabel=True))
     E.call('remove_border_labels', lambda: segm.copy().remove_border_labels(3))
-    other = E.reg('data_img', plain.copy())
-    E.call('Segment.make_cutout', lambda: segm.segments[0].make_cutout(other, masked_array=True))
+    E.call('relabel_consecutive', lambda: segm.copy().relabel_consecutive())
+    # the properties again, after everything else ran
+    E.props(segm, names[:6], prefix='again.')
 
 
 CAT_PROPS = None
@@ -1509,7 +1611,7 @@ def run_scenario(name, variant, seed, report, stat=None, count=None):
 # relative cost: how many variants per scenario in the quick tier
 WEIGHT = {'isophote': 6, 'PSFPhotometry': 30, 'IterativePSFPhotometry': 14, 'psf_fitting_helpers': 14,
           'extract_stars_epsf': 16, 'SourceCatalog': 24, 'ApertureStats': 30, 'centroid_2dg': 30,
-          'centroid_com': 30, 'SegmentationImage': 4, 'psf_models': 12, 'Background2D': 40,
+          'centroid_com': 30, 'SegmentationImage': 42, 'psf_models': 12, 'Background2D': 40,
           'Background2D_blocks': 150, 'psf_model_evaluation': 90,
           'aperture_plotting': 48, 'plot_helpers': 10, 'nddata_entry_points': 52}
 DEFAULT_WEIGHT = 36
